@@ -569,6 +569,9 @@ pub fn language_of(t: &XTree, node: usize) -> Option<&str> {
 }
 
 fn lang(t: &XTree, node: usize, arg: &str) -> bool {
+    if t.nodes[node].kind == Kind::Namespace {
+        crate::trace::note_event("lang-on-namespace-node");
+    }
     match language_of(t, node) {
         Some(v) => scalar::lang_matches(v, arg),
         None => false,
